@@ -372,3 +372,206 @@ Proof.
     eexists. split; [rewrite <- Hlen; apply nth_error_app_here|].
     apply (close_row ln r _ st1 Hon1 Hlast1 Hphys Hty1).
 Qed.
+
+(* ---- the invariant "as many lines as rows passed" along a whole token stream ---- *)
+(* rows_ok c ts c': from current row c, the tokens ts (rows never decreasing, a token that spans rows holding as many
+   line breaks as rows it spans) lead to current row c' *)
+Fixpoint rows_ok (c : Z) (ts : list token) (c' : Z) : Prop :=
+  match ts with
+  | [] => c' = c
+  | t :: rest =>
+    if (tk_srow t =? 0)%Z then rows_ok c rest c'
+    else (c <= tk_srow t <= tk_erow t)%Z /\
+         ((tk_srow t < tk_erow t)%Z -> new_type t <> None ->
+          Z.of_nat (length (split_on NL (tk_str t))) = (tk_erow t - tk_srow t + 1)%Z) /\
+         rows_ok (match new_type t with None => tk_srow t | Some _ => tk_erow t end) rest c'
+  end.
+Lemma removelast_length {X} (l : list X) : length (removelast l) = (length l - 1)%nat.
+Proof.
+  induction l as [|x l IH]; [reflexivity|]. destruct l as [|y l]; [reflexivity|].
+  change (removelast (x :: y :: l)) with (x :: removelast (y :: l)). cbn [length] in *. lia.
+Qed.
+Lemma hl_token_inv st t :
+  lines_inv st -> (h_curline st <= tk_srow t <= tk_erow t)%Z ->
+  ((tk_srow t < tk_erow t)%Z -> new_type t <> None ->
+   Z.of_nat (length (split_on NL (tk_str t))) = (tk_erow t - tk_srow t + 1)%Z) ->
+  lines_inv (hl_token st t) /\ h_curline (hl_token st t) = match new_type t with None => tk_srow t | Some _ => tk_erow t end.
+Proof.
+  intros Hinv Hrows Hml. pose proof (newline_keeps_inv st t Hinv ltac:(lia)) as H0.
+  assert (h_curline (hl_newline st t) = tk_srow t) as Hc0.
+  { unfold hl_newline. destruct (Z.ltb_spec (h_curline st) (tk_srow t)); cbn [h_curline]; lia. }
+  unfold hl_token. destruct (new_type t) as [nt|]; [|split; assumption].
+  destruct (Z.ltb_spec (tk_srow t) (tk_erow t)) as [Hlt|Hge]; unfold lines_inv in *; cbn [h_lines h_curline].
+  - split; [|reflexivity]. specialize (Hml Hlt ltac:(discriminate)).
+    rewrite !app_length, map_length, removelast_length. cbn [length].
+    destruct (split_on NL (tk_str t)) as [|a tls]; cbn [length tl] in *; lia.
+  - split; [|lia]. rewrite H0, Hc0. reflexivity.
+Qed.
+Lemma rows_ok_inv : forall ts c c' st,
+  lines_inv st -> h_curline st = c -> rows_ok c ts c' ->
+  lines_inv (fold_left hl_step ts st) /\ h_curline (fold_left hl_step ts st) = c'.
+Proof.
+  induction ts as [|t ts IH]; intros c c' st Hinv Hc Hok; cbn [fold_left rows_ok] in *; [split; [assumption|congruence]|].
+  unfold hl_step at 2 4. destruct (tk_srow t =? 0)%Z; [now apply (IH c)|].
+  destruct Hok as (Hrows & Hml & Hrest). rewrite <- Hc in Hrows.
+  destruct (hl_token_inv st t Hinv Hrows Hml) as (Hinv' & Hc'). apply (IH _ _ _ Hinv' Hc' Hrest).
+Qed.
+Lemma init_inv : lines_inv hst_init. Proof. reflexivity. Qed.
+
+(* The highlighter shows a row made of single-line tokens at its place and verbatim (up to trailing white space):
+   pre = the tokens before the row (any rows, multi-line tokens included), row = the tokens of row r on the physical
+   line ln, nxt = the first token after them. *)
+Theorem row_shown_l pre row nxt post ln r c0 :
+  Forall not_end pre -> rows_ok 1 pre c0 -> (c0 < r \/ Forall (fun t => tk_srow t = 0) pre /\ r = 1)%Z -> (1 <= r)%Z ->
+  row <> [] -> row_wf ln r 0 row -> has_real row -> phys_line ln ->
+  tk_srow nxt <> 0%Z ->
+  (tk_kind nxt = TkEnd /\ Forall (fun c => is_space c = true) (skipn (Z.to_nat (row_end 0 row)) ln)
+   \/ tk_kind nxt <> TkEnd /\ (r < tk_srow nxt)%Z) ->
+  exists closed, nth_error (split_chunks (pre ++ row ++ nxt :: post)) (Z.to_nat (r - 1)) = Some closed /\ closes_as ln closed.
+Proof.
+  intros Hne Hrows Hbefore Hr1 Hrow Hwf Hreal Hphys Hnz Hnext.
+  unfold split_chunks. rewrite hl_loop_app by exact Hne.
+  destruct (rows_ok_inv pre 1 c0 hst_init init_inv eq_refl Hrows) as (Hinv & Hc).
+  apply row_in_place; try assumption.
+  destruct Hbefore as [Hlt|(Henc & ->)]; [left; lia|right].
+  split; [|reflexivity]. clear -Henc. induction pre as [|t pre IH]; [reflexivity|].
+  inversion Henc as [|? ? Ht Hr]; subst. cbn [fold_left]. unfold hl_step at 2. rewrite Ht. cbn. apply IH, Hr.
+Qed.
+
+(* the number of lines: one per row up to the end marker *)
+Lemma split_chunks_length pre e post c0 :
+  Forall not_end pre -> rows_ok 1 pre c0 -> tk_kind e = TkEnd -> tk_srow e <> 0%Z ->
+  Z.of_nat (length (split_chunks (pre ++ e :: post))) = c0.
+Proof.
+  intros Hne Hrows He Hz. unfold split_chunks. rewrite hl_loop_app by exact Hne.
+  destruct (rows_ok_inv pre 1 c0 hst_init init_inv eq_refl Hrows) as (Hinv & Hc).
+  cbn [hl_loop]. destruct (Z.eqb_spec (tk_srow e) 0); [contradiction|]. rewrite He.
+  rewrite app_length. cbn [length]. unfold lines_inv in Hinv. lia.
+Qed.
+
+(* ------------------------------------------------------------------ compact keeps frames *)
+Definition all_frames (P : frame -> Prop) (cs : list coll) : Prop := Forall (fun c => Forall P (c_frames c)) cs.
+Lemma Forall_firstn {X} (P : X -> Prop) n (l : list X) : Forall P l -> Forall P (firstn n l).
+Proof. intros H. apply Forall_forall. intros x Hx. rewrite Forall_forall in H. apply H. rewrite <- (firstn_skipn n l). apply in_or_app. now left. Qed.
+Lemma Forall_skipn {X} (P : X -> Prop) n (l : list X) : Forall P l -> Forall P (skipn n l).
+Proof. intros H. apply Forall_forall. intros x Hx. rewrite Forall_forall in H. apply H. rewrite <- (firstn_skipn n l). apply in_or_app. now right. Qed.
+Lemma compact_loop_sub (P : frame -> Prop) : forall fuel rest cur acc,
+  Forall P rest -> Forall P (c_frames cur) -> all_frames P acc -> all_frames P (compact_loop fuel rest cur acc).
+Proof.
+  unfold all_frames.
+  induction fuel as [|fuel IH]; intros rest cur acc Hr Hc Ha; cbn [compact_loop].
+  - apply Forall_app. split; [exact Ha|]. constructor; [exact Hc|constructor].
+  - destruct rest as [|x after]; [apply Forall_app; split; [exact Ha|constructor; [exact Hc|constructor]]|].
+    destruct after as [|y after']; [apply Forall_app; split; [exact Ha|constructor; [exact Hc|constructor]]|].
+    set (after := y :: after') in *.
+    assert (Forall P after) as Hafter by (inversion Hr; assumption).
+    assert (P x) as Hx by (inversion Hr; assumption).
+    destruct (dup_offsets x after 0) as [|d0 ds].
+    + destruct (coll_repeated cur).
+      * apply IH; cbn [c_frames]; [exact Hafter|constructor; [exact Hx|constructor]|].
+        apply Forall_app. split; [exact Ha|constructor; [exact Hc|constructor]].
+      * apply IH; cbn [c_frames]; [exact Hafter| |exact Ha]. apply Forall_app. split; [exact Hc|constructor; [exact Hx|constructor]].
+    + destruct (find_same (x :: after) (c_frames cur) (d0 :: ds)) as [d|].
+      * apply IH; cbn [c_frames]; [apply Forall_skipn; exact Hr|exact Hc|exact Ha].
+      * apply IH; cbn [c_frames]; [apply Forall_skipn; exact Hr|apply Forall_firstn; exact Hr|].
+        apply Forall_app. split; [exact Ha|constructor; [exact Hc|constructor]].
+Qed.
+(* every frame of every collection is a frame of the stack *)
+Lemma compact_sub_l l f : In f (flat_map c_frames (compact l)) -> In f l.
+Proof.
+  intros Hin. apply in_flat_map in Hin. destruct Hin as (cl & Hcl & Hf).
+  pose proof (compact_loop_sub (fun g => In g l) (length l) l {| c_frames := []; c_count := 0 |} []) as H.
+  unfold all_frames in H.
+  assert (Forall (fun g => In g l) l) as Hall by (apply Forall_forall; auto).
+  specialize (H Hall (Forall_nil _) (Forall_nil _)). rewrite Forall_forall in H. specialize (H cl Hcl).
+  rewrite Forall_forall in H. apply H, Hf.
+Qed.
+
+(* ------------------------------------------------------------------ the ignore filter *)
+Definition trace_frames (c : tcfg) (fs : list frame) : list frame := flat_map c_frames (compact (kept_frames c fs)).
+Lemma kept_frames_spec c fs f : In f (kept_frames c fs) <-> In f fs /\ (f_ignored f = false \/ t_debug c = true).
+Proof.
+  unfold kept_frames. rewrite filter_In. split; intros (Hin & H); (split; [exact Hin|]).
+  - destruct (f_ignored f), (t_debug c); cbn in H; auto; discriminate.
+  - destruct H as [-> | ->]; [reflexivity|]. now rewrite andb_false_r.
+Qed.
+(* a listed frame is a frame of the traceback that is not under an ignored path - unless the verbosity is debug *)
+Lemma listed_frames_kept c fs f : In f (trace_frames c fs) -> In f fs /\ (f_ignored f = false \/ t_debug c = true).
+Proof. intros H. apply kept_frames_spec. apply compact_sub_l. exact H. Qed.
+Lemma filter_idem {X} (p : X -> bool) : forall l, filter p (filter p l) = filter p l.
+Proof.
+  induction l as [|x l IH]; [reflexivity|]. cbn [filter]. destruct (p x) eqn:E; [|exact IH].
+  cbn [filter]. rewrite E. now rewrite IH.
+Qed.
+Lemma kept_idem c fs : kept_frames c (kept_frames c fs) = kept_frames c fs.
+Proof. apply filter_idem. Qed.
+Lemma kept_not_debug c fs : t_debug c = false -> kept_frames c fs = filter (fun f => negb (f_ignored f)) fs.
+Proof. intros H. unfold kept_frames. apply filter_ext. intros f. now rewrite H, andb_true_r. Qed.
+Lemma kept_debug c fs : t_debug c = true -> kept_frames c fs = fs.
+Proof.
+  intros H. unfold kept_frames. induction fs as [|f fs IH]; [reflexivity|]. cbn [filter].
+  assert (negb (f_ignored f && negb (t_debug c)) = true) as -> by (rewrite H, andb_false_r; reflexivity).
+  f_equal. exact IH.
+Qed.
+(* below debug verbosity the stack trace is what it would be if the frames under an ignored path did not exist *)
+Lemma ignored_frames_invisible c ind fs :
+  t_debug c = false -> render_trace c ind fs = render_trace c ind (filter (fun f => negb (f_ignored f)) fs).
+Proof.
+  intros H. unfold render_trace. rewrite <- (kept_not_debug c fs H), kept_idem. reflexivity.
+Qed.
+(* at debug verbosity the ignore pattern has no effect *)
+Lemma debug_lists_all c fs : t_debug c = true -> kept_frames c fs = fs.
+Proof. intros H. now apply kept_debug. Qed.
+
+(* every frame handed to frames_lines gets its location line *)
+Definition loc_line (c : tcfg) (ind w : Z) (f : frame) (i : Z) : wline :=
+  (ind, s_yellow ++ rjust (dec_text i) w ++ s_frame_mid ++ location c th_builtin f).
+Lemma frames_lines_lists c ind w : forall fs i ls i', frames_lines c ind w fs i = Ok (ls, i') ->
+  i' = (i - zlen fs)%Z /\ forall f, In f fs -> exists k, In (loc_line c ind w f k) ls.
+Proof.
+  induction fs as [|f fs IH]; intros i ls i' H; cbn [frames_lines] in H.
+  - injection H as <- <-. split; [unfold zlen; cbn; lia|intros f []].
+  - destruct (frame_code c ind w f) as [code|e]; cbn [bind] in H; [|discriminate].
+    destruct (frames_lines c ind w fs (i - 1)) as [[rest j]|e] eqn:E; cbn [bind fst snd] in H; [|discriminate].
+    injection H as <- <-. destruct (IH _ _ _ E) as (Hj & Hall). split; [unfold zlen in *; cbn [length]; lia|].
+    intros g [->|Hg].
+    + exists i. right. left. reflexivity.
+    + destruct (Hall g Hg) as (k & Hk). exists k. right. right. apply in_or_app. right. exact Hk.
+Qed.
+Lemma colls_lines_lists c ind w : forall cs i ls, colls_lines c ind w cs i = Ok ls ->
+  forall f, In f (flat_map c_frames cs) -> exists k, In (loc_line c ind w f k) ls.
+Proof.
+  induction cs as [|cl cs IH]; intros i ls H f Hf; cbn [colls_lines flat_map] in *; [contradiction|].
+  destruct (frames_lines c ind w (c_frames cl) _) as [[fl j]|e] eqn:E; cbn [bind fst snd] in H; [|discriminate].
+  destruct (colls_lines c ind w cs j) as [rest|e] eqn:E2; cbn [bind] in H; [|discriminate].
+  injection H as <-. apply in_app_or in Hf. destruct Hf as [Hf|Hf].
+  - destruct (frames_lines_lists _ _ _ _ _ _ _ E) as (_ & Hall). destruct (Hall f Hf) as (k & Hk). exists k.
+    apply in_or_app. right. apply in_or_app. left. exact Hk.
+  - destruct (IH _ _ E2 f Hf) as (k & Hk). exists k. apply in_or_app. right. apply in_or_app. right. exact Hk.
+Qed.
+(* when the stack trace is printed, every frame compact kept has its location line in it *)
+Lemma render_trace_lists c ind fs ls :
+  t_verbose c = true -> (zlen (kept_frames c fs) - 1 <> 0)%Z -> render_trace c ind fs = Ok ls ->
+  forall f, In f (trace_frames c fs) -> exists k w, In (loc_line c ind w f k) ls.
+Proof.
+  intros Hv Hrem H f Hf. unfold render_trace in H. rewrite Hv in H.
+  destruct (Z.eqb_spec (zlen (kept_frames c fs) - 1) 0) as [E|E]; [contradiction|]. cbn [negb andb] in H.
+  destruct (colls_lines c ind _ (compact (kept_frames c fs)) _) as [l|e] eqn:EC; cbn [bind] in H; [|discriminate].
+  injection H as <-. destruct (colls_lines_lists _ _ _ _ _ _ EC f Hf) as (k & Hk). exists k. eexists. right. right. exact Hk.
+Qed.
+
+(* ------------------------------------------------------------------ the shape of a full report *)
+Definition name_line (x : exn_case) : str := s_error_open ++ literal (x_name x) st_error ++ s_error_close.
+Definition msg_line (x : exn_case) : str := s_b_open ++ replace [NL] nl_indent (literal (x_msg x) st_b) ++ s_b_close.
+Lemma render_exception_shape c ind x ls :
+  x_frames x <> [] -> render_exception c ind x = Ok ls ->
+  exists tr sn, render_trace c ind (x_frames x) = Ok tr /\
+    ls = tr ++ [(ind, []); (ind, name_line x); (ind, []); (ind, msg_line x)] ++ sn.
+Proof.
+  intros Hne H. unfold render_exception in H. destruct (x_frames x) as [|f0 fs] eqn:EF; [contradiction|].
+  destruct (render_trace c ind (f0 :: fs)) as [tr|e]; cbn [bind] in H; [|discriminate].
+  destruct (render_snippet c ind _) as [sn|e]; cbn [bind] in H; [|discriminate].
+  injection H as <-. exists tr, sn. split; [reflexivity|]. unfold render_line, name_line, msg_line. cbn [app repeat Z.to_nat]. reflexivity.
+Qed.
+Lemma render_simple_shape c ind x : render_lines c true ind x = Ok [(ind, s_error_open ++ literal (x_msg x) st_error ++ s_error_close)].
+Proof. reflexivity. Qed.
